@@ -9,7 +9,7 @@ run_one() {
   wt=/tmp/mx_$name; out=/tmp/mxout_$name
   rm -rf $wt $out; mkdir -p $out
   git -C /repo worktree add -q --detach $wt HEAD || { echo -e "$name\t-\tworktree-failed"; return; }
-  if ! git -C $wt apply /verif/seeded/$name/patch.diff 2>/dev/null; then
+  if ! git -C $wt apply /verif/seeded/$name/patch.diff 2>/dev/null && ! git -C $wt apply --3way /verif/seeded/$name/patch.diff 2>/dev/null; then
      echo -e "$name\t-\tpatch-does-not-apply"; git -C /repo worktree remove --force $wt; return; fi
   for id in "$@"; do
     EMG3D_REPO=$wt PYTHONPATH=$wt VERIF_OUT=$out NUMBA_CACHE_DIR=/tmp/nbc_mx_$name timeout 3000 ./check $id --tier quick > $out/$id.log 2>&1; rc=$?
@@ -23,7 +23,10 @@ python3 - <<'PY' > /tmp/mx_jobs.txt
 import os, json
 owner = {}   # mutant -> checks to run (its own property first, plus the check that owns the mechanism)
 extra = {'C01_m3': ['C02'], 'C07_m2': ['C12'], 'C07_m3': ['C01'], 'C08_m1': ['C15'], 'C12_m2': ['C17'],
-         'C14_m2': ['C07', 'C08'], 'C17_m2': ['C12'], 'C14_m1': []}
+         'C14_m2': ['C07', 'C08'], 'C17_m2': ['C12'], 'C14_m1': [],
+         # round 2
+         'C01_m4': ['C02'], 'C08_m4': ['C15'], 'C14_m6': ['C15'], 'C17_m6': ['C12'], 'C12_m5': ['C11'],
+         'C07_m5': ['C13']}
 for name in sorted(os.listdir('/verif/seeded')):
     if not os.path.isdir(f'/verif/seeded/{name}'): continue
     ids = [name.split('_')[0]] + extra.get(name, [])
